@@ -772,7 +772,11 @@ where
             match ch.try_recv() {
                 Ok(Hit(hash, entry, timestamp)) => {
                     freq.increment(hash);
-                    entry.set_last_accessed(timestamp);
+                    // Only move the idle timer forward: this read may be applied after
+                    // a later update (or read) of the same entry.
+                    if entry.last_accessed().map_or(true, |la| la < timestamp) {
+                        entry.set_last_accessed(timestamp);
+                    }
                     if entry.is_admitted() {
                         deqs.move_to_back_ao(&entry);
                     }
